@@ -21,9 +21,9 @@ pub enum Family {
 }
 
 /// headers a shape menu does not produce: ALL strings of up to 3 (thorough: 4) bytes over
-/// {space, TAB, CR, a letter, a non-UTF-8 byte}, plus a few longer ones
+/// {space, TAB, CR, a letter, a non-UTF-8 byte, '>', '@', '+'}, plus a few longer ones
 pub fn head_menu(tier: Tier) -> Vec<Vec<u8>> {
-    let alphabet = [b' ', b'\t', b'\r', b'a', 0xffu8];
+    let alphabet = [b' ', b'\t', b'\r', b'a', 0xffu8, b'>', b'@', b'+'];
     let maxlen = if tier == Tier::Quick { 3 } else { 4 };
     let mut out: Vec<Vec<u8>> = vec![vec![]];
     let mut layer: Vec<Vec<u8>> = vec![vec![]];
@@ -195,7 +195,7 @@ pub fn families(format: Format, tier: Tier) -> Vec<Family> {
         }),
         Family::Recs(recs),
         Family::Recs(long_files(format, true)),
-        Family::Raw("header menu (all headers of <= 3 (thorough 4) bytes over {space, TAB, CR, letter, non-UTF-8 byte} + 5 longer ones)", head_menu_inputs(format, tier)),
+        Family::Raw("header menu (all headers of <= 3 (thorough 4) bytes over {space, TAB, CR, letter, non-UTF-8 byte, '>', '@', '+'} + 5 longer ones)", head_menu_inputs(format, tier)),
         Family::Raw(
             "header menu x defect kinds (invalid separator, unequal lengths, truncation after each line)",
             if format == Format::Fastq { head_menu_defect_inputs(tier) } else { vec![] },
